@@ -9,7 +9,7 @@ META = {
     "outside": ["queues longer than 3 before the step", "several names at once (coupled only through the symbolic owned-name counter)",
                 "DBusHashTable (2-slot association model, R7)", "order of the three signals relative to each other (compared as a multiset; FIFO delivery is C05.c)"],
 }
-ENV = ["assert_stubs.c", "mem.c"]
+ENV = ["assert_stubs.c", "mem.c", "memfuncs.c"]
 REAL = ["dbus/dbus-list.c", "dbus/dbus-string.c", "dbus/dbus-marshal-validate.c"]
 def jobs(tier):
     J = []
@@ -17,7 +17,7 @@ def jobs(tier):
         for qn in (0, 1, 2, 3):
             if op == 2 and qn == 0: continue
             J.append(Job(name=f"{nm}.Q{qn}", group="C04.step", harness="harness/C04_services.c", defines={"QN": qn, "OP": op},
-                         real=REAL, env=ENV, checks="assert", unwind=8, unwindset=["vf_err_is.0:66"], timeout=900,
+                         real=REAL, env=ENV, checks="assert", unwind=8, unwindset=["vf_err_is.0:66", "memcpy.0:10", "memmove.0:10", "memmove.1:10"], timeout=900,
                          encodes=[fn, "bus_service_add_owner", "bus_service_swap_owner", "bus_service_remove_owner", "bus_registry_ensure",
                                   "add_restore_ownership_to_transaction", "add_cancel_ownership_to_transaction", "bus_owner_unref",
                                   "_dbus_list_append", "_dbus_list_insert_after", "_dbus_list_unlink", "_dbus_validate_bus_name"],
